@@ -39,7 +39,7 @@ describe(
         "columns of the design variable of the same name; the mask builders advance their cursors by the size of "
         "the loop's own variable."
     ),
-    decided=["17.1 design-space content per formulation", "17.2 consistency constraint value/Jacobian agreement", "17.3 identity block placement", "17.4 mask cursors", "17.6 design space of the disciplinary formulation", "17.7 input sizes of the discipline adapter"],
+    decided=["17.1 design-space content per formulation", "17.2 consistency constraint value/Jacobian agreement", "17.3 identity block placement", "17.4 mask cursors", "17.6 design space of the disciplinary formulation", "17.7 input sizes of the discipline adapter", "17.9 every block of the reused Jacobian buffer rewritten at every call"],
     not_decided=["equality of MDF and IDF values and derivatives at consistent couplings", "same optimum"],
 )
 
